@@ -67,6 +67,22 @@ CHECKS.update({
             "4/C12", CONC_NOTE),
 })
 
+FAULT_NOTE = ("Trusted: the probe (run-time interposition on os.*, open, fcntl.flock incl. calls made inside shutil/tempfile/pathlib; "
+              "every engine reports 'inconclusive' when a call that must touch the disk produced no intercepted operation), "
+              "CPython 3.12, tmpfs scratch. Crash = process death with the page cache intact (power loss, fsync ordering, NFS "
+              "are out of reach of any in-process monitor). Sites are enumerated completely for the listed calls and start states only.")
+CHECKS.update({
+    "C09": ("fault_enumeration", "fault", "runtime monitor: observer reading every permanent file after EVERY file-system operation of a writer (single calls and scheduler-controlled concurrent writers)",
+            "Complete enumeration of the operation boundaries of 30 (start state, call) cases plus observed concurrent schedules; at each boundary every permanent object / metadata / pid-ref file is read and checked (digest == name, one supplied version, one complete cid, presence changes at most once).",
+            "4/C09", FAULT_NOTE),
+    "C10": ("fault_enumeration", "fault", "runtime monitor: fork + os._exit() before each mutating operation in turn, then a fresh instance inspects and recovers the store",
+            "Complete enumeration of crash points (every mutating operation incl. buffer-flush and flush-before-truncate points) of 23 (start state, call) cases; bystanders, interrupted pid and the delete+store recovery are checked on a fresh instance.",
+            "4/C10", FAULT_NOTE),
+    "C13": ("fault_enumeration", "fault", "runtime monitor: OSError injected at each fault site in turn (EIO/ENOSPC/EACCES, one-off and persistent), post-state diffed against the fault-free run, retry executed",
+            "Complete enumeration of fault sites x 3 errnos x 2 persistence modes of 23 (start state, call) cases; outcome vs effect, unbound-and-retryable pid, previous metadata version, bystanders.",
+            "4/C13", FAULT_NOTE),
+})
+
 NOT_YET = {}
 
 
@@ -108,6 +124,8 @@ def main():
              "kind_free_text": "snapshot / layout monitors around constructor and argument-validation paths"},
             {"name": "conc", "path": "/verif/hsverif/concengine.py", "serves_properties": [c for c in CHECKS if CHECKS[c][1] == "conc"],
              "kind_free_text": "cooperative scheduler over real threads running the real code; probe = run-time interposition on os/open/fcntl and the store's condition variables"},
+            {"name": "fault", "path": "/verif/hsverif/faultengine.py", "serves_properties": [c for c in CHECKS if CHECKS[c][1] == "fault"] + ["C08"],
+             "kind_free_text": "fault injection, fork-and-kill crash points and boundary observation over single API calls, all through the probe"},
             {"name": "cli", "path": "/verif/hsverif/props/C20.py", "serves_properties": [c for c in CHECKS if CHECKS[c][1] == "cli"],
              "kind_free_text": "differential monitor: client entry point vs API"},
         ],
